@@ -167,6 +167,8 @@ def c11(rep, tier):
     r_cmp.run_mirror(p, rep)
     r_cmp.run_value_symmetry(p, rep)
     r_cmp.run_orderins(p, rep, [r_cmp.CORE_FNS["value_eq"], r_cmp.CORE_FNS["value_cmp"]])
+    r_cmp.run_eqonly(p, rep)
+    r_table.run_operator_table(p, rep)
     rep.analysed["config:all"] = {"bodies": len(p.fns)}
 
 
